@@ -441,6 +441,62 @@ pub fn explore(ex: &Ex) {
         };
         bfs::run(ex.rep, &spec, depth_big, cap);
     }
+    // key constructors store exactly what they are given: every registered curve x coordinate
+    // lengths around every field size, with and without a leading zero octet
+    {
+        let mut inits: Vec<KInit> = Vec::new();
+        let coords: Vec<Vec<u8>> = [0usize, 1, 28, 31, 32, 33, 47, 48, 49, 55, 56, 57, 58, 65, 66, 67]
+            .iter()
+            .flat_map(|n| {
+                let a: Vec<u8> = (0..*n).map(|k| (k as u8).wrapping_mul(13).wrapping_add(0x81)).collect();
+                let mut z = a.clone();
+                if !z.is_empty() {
+                    z[0] = 0;
+                }
+                vec![a, z]
+            })
+            .collect();
+        for (_, c) in refiana::table(Reg::EllipticCurve) {
+            if iana::EllipticCurve::from_i64(*c).is_none() {
+                continue;
+            }
+            for x in &coords {
+                inits.push(KInit::Ec2Pub(*c, x.clone(), vec![9]));
+                inits.push(KInit::Ec2Pub(*c, vec![9], x.clone()));
+                inits.push(KInit::Ec2PubYSign(*c, x.clone(), x.len() % 2 == 0));
+                inits.push(KInit::Ec2Priv(*c, vec![7], x.clone(), x.clone()));
+            }
+        }
+        for x in &coords {
+            inits.push(KInit::Symmetric(x.clone()));
+        }
+        ex.bound("c19.constructors", "cases", json!(inits.len()));
+        let idx: Vec<usize> = (0..inits.len()).collect();
+        let chunks: Vec<&[usize]> = idx.chunks(64).collect();
+        crate::mc::par_partitions(ex.rep, chunks, |chunk, l| {
+            for i in chunk.iter() {
+                let case = format!("constructor {:?}", inits[*i]);
+                if let Ok(only) = std::env::var("VERIF_ONLY_CASE") {
+                    if only != case {
+                        continue;
+                    }
+                }
+                l.state(1);
+                l.evaluations += 1;
+                l.impl_checked += 1;
+                l.nontrivial(&case);
+                let want = dbg_of(&RVal::Key(key_init_model(&inits[*i])));
+                let got = match key_real(&inits, &[], *i, &[]) {
+                    Real::Built(d) => d,
+                    Real::Panicked(p) => format!("panic: {}", p),
+                    _ => "closure error".to_string(),
+                };
+                if got != want {
+                    l.viol(crate::mc::Viol { key: format!("{}:constructor-differs:CoseKeyBuilder", ex.pid), space: "c19.constructors".into(), case, direct: None, expected: want, observed: got });
+                }
+            }
+        });
+    }
     // ClaimsSetBuilder
     {
         let ops = claims_ops();
